@@ -448,7 +448,44 @@ func (n *UnaryNode) Format(buf *bytes.Buffer, indent string, onNewLine bool) {
 	}
 	writeIndent(buf, indent, onNewLine)
 	buf.WriteString(n.Operator.String())
-	n.Node.Format(buf, indent, false)
+	// A unary operator binds tighter than any binary operator.
+	formatOperand(buf, indent, false, n.Node, needsParens(n.Node))
+}
+
+// needsParens reports whether the operand of a unary operator has to be
+// written in parentheses that its Parens flag does not ask for.
+// Trees that come from the parser carry the flag wherever the source had
+// parentheses; trees that are built or unmarshaled from JSON do not.
+func needsParens(operand Node) bool {
+	b, ok := operand.(*BinaryNode)
+	return ok && !b.Parens
+}
+
+// needsParensIn reports whether operand, the left or right operand of a
+// binary expression with operator op, has to be written in parentheses that
+// its Parens flag does not ask for: it is a binary expression that binds
+// less tightly than op, or as tightly on the right hand side
+// (all binary operators are left-associative).
+func needsParensIn(op TokenType, operand Node, right bool) bool {
+	b, ok := operand.(*BinaryNode)
+	if !ok || b.Parens || !IsExprOperator(op) || !IsExprOperator(b.Operator) {
+		return false
+	}
+	if right {
+		return precedence[b.Operator] <= precedence[op]
+	}
+	return precedence[b.Operator] < precedence[op]
+}
+
+func formatOperand(buf *bytes.Buffer, indent string, onNewLine bool, operand Node, parens bool) {
+	if !parens {
+		operand.Format(buf, indent, onNewLine)
+		return
+	}
+	writeIndent(buf, indent, onNewLine)
+	buf.WriteByte('(')
+	operand.Format(buf, indent+indentStep, false)
+	buf.WriteByte(')')
 }
 func (n *UnaryNode) SetComment(c *CommentNode) {
 	n.Comment = c
@@ -539,7 +576,7 @@ func (n *BinaryNode) Format(buf *bytes.Buffer, indent string, onNewLine bool) {
 		buf.WriteByte('(')
 		indent += indentStep
 	}
-	n.Left.Format(buf, indent, false)
+	formatOperand(buf, indent, false, n.Left, needsParensIn(n.Operator, n.Left, false))
 	buf.WriteByte(' ')
 	buf.WriteString(n.Operator.String())
 	if n.MultiLine {
@@ -547,7 +584,7 @@ func (n *BinaryNode) Format(buf *bytes.Buffer, indent string, onNewLine bool) {
 	} else {
 		buf.WriteByte(' ')
 	}
-	n.Right.Format(buf, indent, n.MultiLine)
+	formatOperand(buf, indent, n.MultiLine, n.Right, needsParensIn(n.Operator, n.Right, true))
 	if n.Parens {
 		buf.WriteByte(')')
 	}
